@@ -686,6 +686,11 @@ func (s *plistLineSorter) Sort() {
 	if !G.Logger.shallBeLogged("%q should be sorted before %q.") {
 		return
 	}
+	if !G.Logger.shallBeLogged(SilentAutofixFormat) {
+		// Like all other silent fixes, sorting is not selectable by --only;
+		// its AUTOFIX line would be suppressed, so don't modify the file.
+		return
+	}
 	if len(s.middle) == 0 {
 		return
 	}
